@@ -51,6 +51,51 @@ Qed.
 Lemma to_i32_small n : n < 2147483648 -> to_i32 n = Z.of_N n.
 Proof. intros H. unfold to_i32. destruct (N.ltb_spec n 2147483648); [reflexivity|lia]. Qed.
 
+Lemma of_le_bound l : Forall (fun b => b < 256) l -> of_le l < 256 ^ N.of_nat (length l).
+Proof.
+  induction 1 as [|x l Hx _ IH]; cbn [of_le length]; [cbn; lia|].
+  rewrite Nat2N.inj_succ, N.pow_succ_r'. lia.
+Qed.
+
+Lemma Forall_firstn' {A} (P : A -> Prop) n : forall l, Forall P l -> Forall P (firstn n l).
+Proof.
+  induction n as [|n IH]; intros l H; [constructor|].
+  destruct H as [|x l Hx Hl]; cbn [firstn]; constructor; auto.
+Qed.
+
+Lemma Forall_skipn' {A} (P : A -> Prop) n : forall l, Forall P l -> Forall P (skipn n l).
+Proof.
+  induction n as [|n IH]; intros l H; [exact H|].
+  destruct H as [|x l Hx Hl]; cbn [skipn]; [constructor|auto].
+Qed.
+
+(* an 8-byte field of a byte string is a 64-bit pattern *)
+Lemma of_le_slice8_lt (dec : bytes) a :
+  Forall (fun b => b < 256) dec -> of_le (slice dec a (a + 8)) < 18446744073709551616.
+Proof.
+  intros H. unfold slice.
+  assert (F : Forall (fun b => b < 256) (firstn (a + 8 - a) (skipn a dec)))
+    by (apply Forall_firstn', Forall_skipn', H).
+  pose proof (of_le_bound _ F) as B.
+  assert (L : (length (firstn (a + 8 - a) (skipn a dec)) <= 8)%nat) by (rewrite firstn_length; lia).
+  eapply N.lt_le_trans; [exact B|].
+  change 18446744073709551616 with (256 ^ 8). apply N.pow_le_mono_r; lia.
+Qed.
+
+(* Go: int64 & 3 on a possibly negative msg_id = the two low bits of its 64-bit pattern *)
+Lemma land3_signed n : n < 18446744073709551616 -> Z.land (to_i64 n) 3 = Z.of_N (n mod 4).
+Proof.
+  intros H. change 3%Z with (Z.ones 2). rewrite Z.land_ones by lia. change (2 ^ 2)%Z with 4%Z.
+  unfold to_i64. destruct (N.ltb_spec n 9223372036854775808); lia.
+Qed.
+
+Lemma server_parity_signed n : n < 18446744073709551616 -> server_parity n = go_parity n.
+Proof.
+  intros H. unfold server_parity, go_parity. cbv zeta. rewrite land3_signed by exact H.
+  destruct (N.eqb_spec (n mod 4) 1), (N.eqb_spec (n mod 4) 3),
+           (Z.eqb_spec (Z.of_N (n mod 4)) 1), (Z.eqb_spec (Z.of_N (n mod 4)) 3); try reflexivity; lia.
+Qed.
+
 Lemma lor1_lt n : n < 4294967296 -> N.lor n 1 < 4294967296.
 Proof.
   intros H. destruct (N.eq_dec n 0) as [->|Hn]; [cbn; lia|].
